@@ -100,6 +100,33 @@ func (fc *FnCtx) envAtLoop(li *loopInfo, st *State, over map[*ssa.Phi]Val) *Env 
 			}
 			return fc.val(phi), true
 		}
+		// ... and, for a loop that was moved into an inlined helper, of the loops of the function
+		// under contract that enclose the call of the helper
+		if fc.frameParent != nil && fc.loopSpecBase >= 0 && (name == "rangeindex" || name == "rangeint.iter") {
+			root := fc.root()
+			own := false
+			for _, in := range li.header.Instrs {
+				if phi, ok := in.(*ssa.Phi); ok && phi.Comment == name {
+					own = true
+				}
+			}
+			if !own && fc.callBlock != nil {
+				for _, ol := range root.loops {
+					if !ol.body[fc.callBlock] {
+						continue
+					}
+					for _, in := range ol.header.Instrs {
+						phi, ok := in.(*ssa.Phi)
+						if !ok {
+							break
+						}
+						if phi.Comment == name {
+							return root.val(phi), true
+						}
+					}
+				}
+			}
+		}
 		// hidden loop variables (rangeindex, rangeint.iter) of the enclosing loops
 		for _, ol := range fc.loops {
 			if ol == li || !ol.body[li.header] {
